@@ -25,6 +25,8 @@ structure Rec (π : Type) where
   year : Nat
   doy : Nat
   val : π
+  /-- the date token of the line did not parse (`time.Parse` returned an error) -/
+  bad : Bool := false
   deriving Repr, DecidableEq
 
 /-- newest-first write log of a two-index array -/
@@ -70,7 +72,7 @@ structure MState (π : Type) where
 inductive StepRes (π : Type) where
   | cont (s : MState π)
   | stop (s : MState π)     -- `break`: more years in the file than were allocated
-  | gap                     -- `return … error: missing days`
+  | gap                     -- `return` with an error: missing days, or a date that did not parse
 
 /-- (T, yrz) after the first-record fail-safe and the year switch (weather_input.go:408-416). -/
 def advance (first : Bool) (T yrz doy : Nat) : Nat × Nat :=
@@ -84,7 +86,8 @@ def switchOk {π : Type} (s : MState π) (r : Rec π) : Bool :=
 /-- One pass of the loop body (ReadWeatherCSV; the same statements in ReadWeatherCZ). -/
 def multiStep {π : Type} (startyear cap : Nat) (s : MState π) (r : Rec π) : StepRes π :=
   let T := s.T + 1
-  if r.year < startyear then .cont { s with T := T }            -- `continue` (years before the start year)
+  if r.bad then .gap                                            -- parse error, reported by anyWeatherError
+  else if r.year < startyear then .cont { s with T := T }       -- `continue` (years before the start year)
   else if !s.first && r.doy = 1 && !switchOk s r then .gap      -- 1 January not preceded by a complete year
   else
     let a := advance s.first T s.yrz r.doy
@@ -93,7 +96,7 @@ def multiStep {π : Type} (startyear cap : Nat) (s : MState π) (r : Rec π) : S
     else .cont { T := a.1, yrz := a.2, first := false,
                  store := s.store.put (a.2 - 1) (a.1 - 1) r.val r.year a.1 }
 
-/-- The reading loop. `none` = the reader returned the error "missing days". -/
+/-- The reading loop. `none` = the reader returned an error ("missing days" / parse error). -/
 def readMultiFrom {π : Type} (startyear cap : Nat) : MState π → List (Rec π) → Option (MState π)
   | s, [] => some s
   | s, r :: rs =>
@@ -111,24 +114,24 @@ def readCSV {π : Type} := @readMulti π
 def readCZ {π : Type} := @readMulti π
 
 inductive YStatus where
-  | ok | gap | panic | nofile | empty
+  | ok | gap | panic | nofile | empty | beyond
   deriving DecidableEq, Repr
 
 /-- Loop of `WetterK` (weather_input.go:148-172) over the lines (day number T of column 11, payload).
 The store is returned in the error case too (the kernel correspondence compares it). -/
-def readYearLines {π : Type} (st : Store π) (tlast : Nat) : List (Nat × π) → Store π × YStatus
+def readYearLines {π : Type} (year : Nat) (st : Store π) (tlast : Nat) : List (Nat × π) → Store π × YStatus
   | [] => (st, .ok)
   | (T, v) :: rest =>
     if tlast + 1 ≠ T then (st, .gap)
-    else if T > 366 then (st, .panic)            -- index out of range of the [366] arrays
-    else readYearLines (st.put0 (T - 1) v T) T rest
+    else if T > daysInYear year then (st, .beyond)   -- a day number that does not exist in that year
+    else readYearLines year (st.put0 (T - 1) v T) T rest
 
 /-- `WetterK` for one year file (`none` = the file cannot be opened: error before `JAR[0] = year`;
 no data line = error "no data"). -/
 def readYearFile {π : Type} (year : Nat) (st : Store π) : Option (List (Nat × π)) → Store π × YStatus
   | none => (st, .nofile)
   | some [] => (st.setJar 0 year, .empty)
-  | some ls => readYearLines (st.setJar 0 year) 0 ls
+  | some ls => readYearLines year (st.setJar 0 year) 0 ls
 
 /-- The search of `LoadYear` (weather_input.go:692-733) over the `cap` allocated years:
 (year index, days) of the first slot whose `JAR` equals the year; `none` = the error
